@@ -4,6 +4,7 @@ import (
 	"go/ast"
 	"go/token"
 	"go/types"
+	"sort"
 	"strings"
 
 	"verif/checker/fw"
@@ -18,6 +19,12 @@ func init() {
 			"registry insertions are paired with the subscription counter, TriggerCountInc with initialized.Store(true); the trigger id derives from the input hash and the headers hash; Source.Start has one call site, under a detached context, with tear-down on its error edge; " +
 			"sources call Done() after every Error()/Complete(). It does not decide that the counters return to zero for every history.",
 		Mutants: []Mutant{
+			{Name: "registry lock released between trigger lookup and insertion (seeded change C13-12)", File: resolveGo, Rule: "C13-R9", Key: "addSubscription/insert-in-the-critical-section-of-the-lookup",
+				Old: "\tcloneCtx := add.ctx.clone(ctx)\n\ttrig = &trigger{", New: "\tr.mu.Unlock()\n\tcloneCtx := add.ctx.clone(ctx)\n\tr.mu.Lock()\n\ttrig = &trigger{"},
+			{Name: "subscription source hashes url and body only (seeded change C13-13)", File: gqldsGo, Rule: "C13-R5", Key: "HashTriggerInput/hash-covers-every-option",
+				Old: "func (s *SubscriptionSource) HashTriggerInput(input []byte, xxh *xxhash.Digest) error {\n\t_, err := xxh.Write(input)\n\treturn err\n}", New: "func (s *SubscriptionSource) HashTriggerInput(input []byte, xxh *xxhash.Digest) error {\n\turl, _, _, _ := jsonparser.Get(input, \"url\")\n\tbody, _, _, err := jsonparser.Get(input, \"body\")\n\tif err != nil {\n\t\t_, err = xxh.Write(input)\n\t\treturn err\n\t}\n\t_, _ = xxh.Write(url)\n\t_, err = xxh.Write(body)\n\treturn err\n}"},
+			{Name: "removeClient cancels only initialized triggers (seeded change C13-11)", File: resolveGo, Rule: "C13-R3", Key: "removeClient",
+				Old: "\t\tif res.triggerCancel != nil {\n\t\t\tcancels = append(cancels, res.triggerCancel)\n\t\t\tif res.initialized {\n\t\t\t\ttriggerDec++\n\t\t\t}\n\t\t}", New: "\t\tif res.triggerCancel != nil && res.initialized {\n\t\t\tcancels = append(cancels, res.triggerCancel)\n\t\t\ttriggerDec++\n\t\t}"},
 			{Name: "late Done() detaches whatever trigger has the id (the repaired defect F14)", File: resolveGo, Rule: "C13-R8", Key: "Resolver.doneTriggerFromUpdater/detach-own-trigger-only",
 				Old: "\tif trig, ok := r.triggers[triggerID]; !ok || trig.updater != updater {\n\t\tr.mu.Unlock()\n\t\treturn\n\t}\n", New: ""},
 			{Name: "start goroutine marks whatever trigger has the id initialized", File: resolveGo, Rule: "C13-R8", Key: "Resolver.markTriggerInitialized/mark-initialized-own-trigger-only",
@@ -50,6 +57,8 @@ func init() {
 
 func runC13(r *fw.Run) {
 	defer c13OwnTrigger(r)
+	defer c13LookupInsertAtomic(r)
+	defer c13SourceHashCoversInput(r)
 	p := r.Prog
 	la := subsLockAnalysis(r)
 	info := p.Pkg("resolve").TypesInfo
@@ -751,7 +760,8 @@ func checkResultConsumption(r *fw.Run, fi *fw.FuncInfo) int {
 	}
 	accOf := map[types.Object]string{} // accumulator var -> label
 	in := fw.NewInterp(fi)
-	fact := func(o types.Object, f string) string { return "pend:" + o.Name() + "." + f }
+	objKey := func(o types.Object) string { return o.Name() + "@" + itoa(int(o.Pos())) } // two variables may share a name (res in a loop, res after it)
+	fact := func(o types.Object, f string) string { return "pend:" + objKey(o) + "." + f }
 	isAccumulation := func(as *ast.AssignStmt, o types.Object) bool {
 		for _, l := range as.Lhs {
 			if fw.RootObj(info, l) == o {
@@ -760,6 +770,19 @@ func checkResultConsumption(r *fw.Run, fi *fw.FuncInfo) int {
 		}
 		return false
 	}
+	// reads of a cancel function that only test it against nil do not consume it (the cancel still has to be called or
+	// handed on when it is not nil)
+	nilTested := map[*ast.SelectorExpr]bool{}
+	ast.Inspect(fi.Decl.Body, func(nd ast.Node) bool {
+		if be, ok := nd.(*ast.BinaryExpr); ok {
+			if x, _, isNil := fw.NilCheck(info, be); isNil {
+				if sel, isSel := ast.Unparen(x).(*ast.SelectorExpr); isSel && fw.IsFieldSel(info, sel, "resolve", "removeResult", "triggerCancel") {
+					nilTested[sel] = true
+				}
+			}
+		}
+		return true
+	})
 	var curAssign *ast.AssignStmt
 	in.H = fw.Hooks{
 		Lit: func(l *ast.FuncLit, ctx fw.LitCtx, st *fw.State) fw.LitMode {
@@ -770,9 +793,11 @@ func checkResultConsumption(r *fw.Run, fi *fw.FuncInfo) int {
 		},
 		Cond: func(e ast.Expr, branch bool, st *fw.State) {
 			if x, eq, ok := fw.NilCheck(info, e); ok && fw.IsFieldSel(info, x, "resolve", "removeResult", "triggerCancel") && eq == branch {
-				// no trigger was emptied by this removal: there is no trigger whose initialized bit could matter
+				// no trigger was emptied by this removal: there is no trigger whose initialized bit could matter,
+				// and nothing to cancel
 				if o := fw.RootObj(info, x); o != nil {
 					st.Kill(fact(o, "initialized"))
+					st.Kill(fact(o, "triggerCancel"))
 				}
 			}
 			if x, eq, ok := fw.NilCheck(info, e); ok && fw.IsFieldSel(info, x, "resolve", "Resolver", "reporter") && eq == branch {
@@ -790,7 +815,7 @@ func checkResultConsumption(r *fw.Run, fi *fw.FuncInfo) int {
 			switch x := nd.(type) {
 			case *ast.SelectorExpr:
 				// read of v.field
-				if v, sel := fw.Field(info, x); v != nil {
+				if v, sel := fw.Field(info, x); v != nil && !nilTested[x] {
 					if rt := resType(info.TypeOf(sel.X)); rt != "" {
 						if o := fw.RootObj(info, sel.X); o != nil {
 							st.Kill(fact(o, v.Name()))
@@ -847,7 +872,7 @@ func checkResultConsumption(r *fw.Run, fi *fw.FuncInfo) int {
 				for _, res := range x.Results {
 					if id, ok := ast.Unparen(res).(*ast.Ident); ok {
 						if o := info.Uses[id]; o != nil {
-							st.KillPrefix("pend:" + o.Name() + ".")
+							st.KillPrefix("pend:" + objKey(o) + ".")
 						}
 					}
 				}
@@ -900,7 +925,13 @@ func checkResultConsumption(r *fw.Run, fi *fw.FuncInfo) int {
 			var left []string
 			for k, v := range st.F {
 				if strings.HasPrefix(k, "pend:") && v.Max >= 1 {
-					left = append(left, strings.TrimPrefix(k, "pend:"))
+					name := strings.TrimPrefix(k, "pend:")
+					if at := strings.IndexByte(name, '@'); at >= 0 {
+						if dot := strings.IndexByte(name[at:], '.'); dot >= 0 {
+							name = name[:at] + name[at+dot:]
+						}
+					}
+					left = append(left, name)
 				}
 			}
 			r.Check(len(left) == 0, "C13-R3", fi.Name()+"/exit-consumed", p.Pos(pos), "exit of "+fi.Name()+": removal result fully consumed",
@@ -1046,4 +1077,185 @@ func c13OwnTrigger(r *fw.Run) {
 		in.Run(nil)
 	}
 	r.Expect("C13-R8", "detach / mark-initialized effects reachable from late callbacks", n, 2)
+}
+
+// c13LookupInsertAtomic (R9, added after a seeded change released Resolver.mu between the two): in addSubscription the
+// lookup of the trigger (read of Resolver.triggers[id]) and the registration of a new one (store into Resolver.triggers) are
+// in one critical section of Resolver.mu. Otherwise two concurrent first subscribers both miss, both create a trigger and
+// start the source, and the second insert overwrites the first (an orphaned trigger whose subscriber is never completed).
+func c13LookupInsertAtomic(r *fw.Run) {
+	p := r.Prog
+	r.Rule("C13-R9", "in addSubscription the lookup of Resolver.triggers[id] and the insertion of a new trigger happen in the same critical section of Resolver.mu (no unlock in between): a trigger is started exactly once per live period")
+	fi := p.Func("resolve", "Resolver.addSubscription")
+	if fi == nil {
+		r.Error("C13-R9: Resolver.addSubscription not found")
+		return
+	}
+	info := fi.Info()
+	const lk = "resolve.Resolver.mu"
+	n := 0
+	in := fw.NewInterp(fi)
+	in.H = fw.Hooks{
+		Lit: func(l *ast.FuncLit, ctx fw.LitCtx, st *fw.State) fw.LitMode { return fw.LitSkip },
+		Node: func(nd ast.Node, st *fw.State) {
+			switch x := nd.(type) {
+			case *ast.CallExpr:
+				if op, ok := fw.LockOpOf(info, x); ok {
+					fw.ApplyLockOp(op, st)
+				}
+			case *ast.AssignStmt:
+				stored := false
+				for _, l := range x.Lhs {
+					if ix, ok := ast.Unparen(l).(*ast.IndexExpr); ok && fw.IsFieldSel(info, ix.X, "resolve", "Resolver", "triggers") {
+						stored = true
+					}
+				}
+				if stored && in.Final() {
+					n++
+					r.Check(st.Must("under:"+lk+":looked-up"), "C13-R9", fi.Name()+"/insert-in-the-critical-section-of-the-lookup", p.Pos(x.Pos()), "the new trigger is inserted in the critical section that looked it up",
+						"Resolver.mu was released between the lookup of the trigger id and the insertion of the new trigger: two concurrent first subscribers of the same input both miss, both call Source.Start, and the second insert overwrites the first — the orphaned trigger's subscriber is never completed, never counted down, and its upstream is never cancelled")
+					return
+				}
+				for _, rh := range x.Rhs {
+					fw.WalkAll(rh, func(m ast.Node) bool {
+						if ix, ok := m.(*ast.IndexExpr); ok && fw.IsFieldSel(info, ix.X, "resolve", "Resolver", "triggers") {
+							st.Set("under:" + lk + ":looked-up")
+						}
+						return true
+					})
+				}
+			}
+		},
+	}
+	in.Run(nil)
+	r.Expect("C13-R9", "insertions into Resolver.triggers in addSubscription", n, 1)
+}
+
+// c13SourceHashCoversInput (part of R5, added after a seeded change hashed url and body only): the GraphQL subscription
+// source hashes its whole input, or at least every option the input carries that Start acts on — every JSON key of the
+// options struct the input is decoded into, except the header object (the resolver hashes the forwarded headers itself).
+func c13SourceHashCoversInput(r *fw.Run) {
+	p := r.Prog
+	pk := p.Pkg("gqlds")
+	if pk == nil {
+		r.Error("C13-R5: package graphql_datasource not loaded")
+		return
+	}
+	info := pk.TypesInfo
+	fi := p.Func("gqlds", "SubscriptionSource.HashTriggerInput")
+	if fi == nil {
+		r.Error("C13-R5: SubscriptionSource.HashTriggerInput not found")
+		return
+	}
+	sig := fi.Obj.Type().(*types.Signature)
+	input := sig.Params().At(0)
+	whole := false
+	keys := map[string]bool{}
+	fw.WalkAll(fi.Decl.Body, func(nd ast.Node) bool {
+		c, ok := nd.(*ast.CallExpr)
+		if !ok {
+			return true
+		}
+		fn := fw.Callee(info, c)
+		if fn == nil {
+			return true
+		}
+		if fn.Name() == "Write" && len(c.Args) == 1 {
+			if id, ok := ast.Unparen(c.Args[0]).(*ast.Ident); ok && info.Uses[id] == input {
+				whole = true
+			}
+		}
+		if fn.Name() == "Get" && len(c.Args) >= 2 {
+			if cv, ok := fw.ConstVal(info, c.Args[1]); ok {
+				keys[strings.Trim(cv, "\"")] = true
+			}
+		}
+		return true
+	})
+	// unconditional whole-input hashing: every exit passed Write(input)
+	wholeOnAllPaths := false
+	if whole {
+		in := fw.NewInterp(fi)
+		ok := true
+		in.H = fw.Hooks{
+			Node: func(nd ast.Node, st *fw.State) {
+				if c, isC := nd.(*ast.CallExpr); isC {
+					if fn := fw.Callee(info, c); fn != nil && fn.Name() == "Write" && len(c.Args) == 1 {
+						if id, isID := ast.Unparen(c.Args[0]).(*ast.Ident); isID && info.Uses[id] == input {
+							st.Set("hashed-whole")
+						}
+					}
+				}
+			},
+			Exit: func(ret *ast.ReturnStmt, lit *ast.FuncLit, st *fw.State) {
+				if lit == nil && !st.Must("hashed-whole") {
+					ok = false
+				}
+			},
+		}
+		in.Run(nil)
+		wholeOnAllPaths = ok
+	}
+	var missing []string
+	if !wholeOnAllPaths {
+		if opt := p.Named("gqlds", "GraphQLSubscriptionOptions"); opt != nil {
+			st := opt.Underlying().(*types.Struct)
+			for i := 0; i < st.NumFields(); i++ {
+				tag := reflectTag(st.Tag(i), "json")
+				if tag == "" || tag == "-" || tag == "header" {
+					continue
+				}
+				if !keys[tag] {
+					missing = append(missing, tag)
+				}
+			}
+		} else {
+			r.Error("C13-R5: GraphQLSubscriptionOptions not found")
+		}
+	}
+	sort.Strings(missing)
+	r.Check(wholeOnAllPaths || len(missing) == 0, "C13-R5", fi.Name()+"/hash-covers-every-option", fi.Pos(), "the subscription source feeds its whole input (or every option of it) to the trigger hash",
+		"the trigger id no longer depends on: "+strings.Join(missing, ", ")+" — two subscriptions that differ only there (e.g. in the connection_init payload that identifies the user) share one upstream subscription: one client receives the other's events")
+}
+
+// reflectTag extracts key from a struct tag without importing reflect's runtime semantics (same syntax).
+func reflectTag(tag, key string) string {
+	for tag != "" {
+		i := 0
+		for i < len(tag) && tag[i] == ' ' {
+			i++
+		}
+		tag = tag[i:]
+		if tag == "" {
+			break
+		}
+		i = 0
+		for i < len(tag) && tag[i] > ' ' && tag[i] != ':' && tag[i] != '"' {
+			i++
+		}
+		if i == 0 || i+1 >= len(tag) || tag[i] != ':' || tag[i+1] != '"' {
+			break
+		}
+		name := tag[:i]
+		tag = tag[i+1:]
+		i = 1
+		for i < len(tag) && tag[i] != '"' {
+			if tag[i] == '\\' {
+				i++
+			}
+			i++
+		}
+		if i >= len(tag) {
+			break
+		}
+		val := tag[1:i]
+		tag = tag[i+1:]
+		if name == key {
+			if c := strings.IndexByte(val, ','); c >= 0 {
+				val = val[:c]
+			}
+			return val
+		}
+	}
+	return ""
 }
